@@ -21,6 +21,8 @@ def run_case(ctx, props, program, sched_desc=None, label_rule=None, extra_check=
             ctx.violation('prog:' + bucket, msg, case)
         else:
             ctx.count('other-property-discrepancy:' + prop)
+    if isinstance(r.exc, solve.LoopBudgetExceeded) and 'C06' in props:
+        ctx.violation('prog:loop-does-not-terminate', f'the solve loop keeps polling without making progress ({r.exc}); prompts so far: {r.trace.prompts[-3:]}', case)
     if isinstance(r.exc, progs.BudgetExceeded) and 'C06' in props:
         ctx.violation('prog:budget-exceeded', f'more than {r.counters.limit} line evaluations: the solve does not terminate within its step bound', case)
     if extra_check is not None:
